@@ -8,7 +8,7 @@ Tie / judge: generated programs (harness/gen_program.py) extended with one deter
 evaluated by the real engine.  The bound Pr of every answer is compared with
     (a) what ProbLog itself reports at top level for the same goal on the same clauses (the property's own judge),
     (b) the exact value of the Coq-extracted semantics oracle,
-    (c) the answer set of the Coq model `subquery_m` (extracted to OCaml; programs with <= 9 ground AD instances),
+    (c) the answer set of the Coq model `subquery_m` (extracted to OCaml; instances * 2^(ground AD instances) <= 1024),
 all at 1e-9; an answer with Pr = 0 is the same observation as no answer.
 """
 import signal
@@ -258,7 +258,33 @@ def eval_case(case):
     prog, kind, nested = case
     return (eval_wrapper(wrapper_text(prog, kind, nested)),
             eval_toplevel(toplevel_prog(prog, "sq3" if kind == "sq3" else "sq2").text()),
-            eval_toplevel(outer_prog(prog).text()) if kind == "sq2_outer" else None)
+            (eval_toplevel(outer_prog(prog).text()), eval_toplevel(outer_dummy_text(prog))) if kind == "sq2_outer" else None)
+
+
+def outer_dummy_text(prog):
+    """the outer program with NO subquery at all: clauses, a dummy deterministic query, the outer evidence (what grounding the
+    outer evidence alone does -- some C01 findings only show when the goal was not grounded before in the same target)"""
+    return clause_text(prog) + "sqdummy.\nquery(sqdummy).\n" + "".join(gp.stmt_text(("evid", a, v)) + "\n" for a, v in prog.evidence())
+
+
+def _fresh_worker(args):
+    import sys
+    fn, item = args
+    sys.setrecursionlimit(20000)
+    return fn(item)
+
+
+def pmap_fresh(fn, items, jobs=8):
+    """every item in a freshly forked child (maxtasksperchild=1): the engine's behaviour on a few programs with positive
+    cycles was seen to depend on what the same process had evaluated before; a fresh child makes every evaluation
+    independent of the history (and the run deterministic)."""
+    import multiprocessing
+    items = list(items)
+    if not items:
+        return []
+    mp = multiprocessing.get_context("fork")
+    with mp.Pool(min(jobs, len(items)), maxtasksperchild=1) as pool:
+        return pool.map(_fresh_worker, [(fn, x) for x in items], 1)
 
 
 def expected_for(kind, ref_inner, ref_outer):
@@ -275,10 +301,13 @@ def judge_case(case, impl, top, ref_inner, ref_outer, top_outer=None):
     if ref_inner[0] == "err" and ref_inner[1] not in ("InconsistentEvidence",):
         return "machinery", ["oracle: %s" % ref_inner[1]]
     exp_top = top
-    if kind == "sq2_outer" and top_outer is not None and top_outer[0] == "err":
-        # the outer program WITHOUT any wrapper already raises at top level (inconsistent outer evidence, or a failure while
-        # grounding its evidence): the wrapper program must raise the same, whatever the nested calls return
-        exp_top = top_outer
+    if kind == "sq2_outer" and top_outer is not None:
+        # the outer program WITHOUT any subquery (goals queried directly / only a dummy query) already raises at top level
+        # (inconsistent outer evidence, or a failure while grounding its evidence): the wrapper program must raise the same,
+        # whatever the nested calls return
+        errs = [t for t in top_outer if t is not None and t[0] == "err"]
+        if errs:
+            exp_top = next((t for t in errs if impl[0] == "err" and impl[1] == t[1]), errs[0])
     d_top = compare(prog, impl, exp_top, "top-level ProbLog")
     d_ref = compare(prog, impl, expected_for(kind, ref_inner, ref_outer), "the semantics")
     if not d_top and not d_ref:
@@ -453,8 +482,8 @@ def eval_canonical(text):
 
 
 def run_behaviours(ctx):
-    for name, text, want in BEHAVIOURS:
-        got = eval_canonical(text)
+    gots = pmap_fresh(eval_canonical, [b[1] for b in BEHAVIOURS], jobs=8)
+    for (name, text, want), got in zip(BEHAVIOURS, gots):
         ok = (got[0] == "err" and got[1] == want) if isinstance(want, str) else (
             got[0] == "ok" and set(got[1]) == set(want) and all(abs(got[1][k] - want[k]) <= TOL for k in want))
         ctx.case(("behaviour", text), True)
@@ -547,7 +576,7 @@ def refs_for(ctx, case):
 
 
 def run_one(ctx, case):
-    impl, top, top_outer = eval_case(case)
+    impl, top, top_outer = pmap_fresh(eval_case, [case], jobs=1)[0]
     ri, ro = refs_for(ctx, case)
     return judge_case(case, impl, top, ri, ro, top_outer), impl, top, ri
 
@@ -575,7 +604,7 @@ def report(ctx, case, verdict, details, impl, top, ri, state):
     what = "subquery (%s%s) differs from top-level inference: %s | wrapper program: %s" % (
         kind, ", nested" if nested else "", "; ".join(details)[:600], wrapper_text(sp, kind, nested).replace("\n", " "))
     ctx.violation(what, {"program": sp.to_json(), "kind": kind, "nested": nested, "wrapper_program": wrapper_text(sp, kind, nested),
-                         "implementation": impl, "toplevel": top,
+                         "original_wrapper_program": wrapper_text(prog, kind, nested), "implementation": impl, "toplevel": top,
                          "semantics": [ri[0], {k: str(v) for k, v in ri[1].items()} if ri[0] == "ok" else ri[1]]},
                   klass=classify(small, impl, top, details))
 
@@ -608,7 +637,7 @@ def run(ctx):
             report(ctx, case, verdict, details, impl, top, ri, {"n": 99})
         return
     run_behaviours(ctx)
-    cases = make_cases(ctx, ctx.n(50, 800))
+    cases = make_cases(ctx, ctx.n(50, 500))
     ctx.log("%d wrapper programs; oracle" % len(cases))
     ref_inner = so.oracle_eval(ctx, [toplevel_prog(c[0], "sq3" if c[1] == "sq3" else "sq2") for c in cases], "fast", jobs=8)
     outer_idx = [i for i, c in enumerate(cases) if c[1] == "sq2_outer"]
@@ -616,7 +645,7 @@ def run(ctx):
     ref_outer = dict(zip(outer_idx, ro))
     nch = so.oracle_eval(ctx, [outer_prog(c[0]) for c in cases], "nch", jobs=8)
     ctx.log("implementation: wrapper programs and top-level programs")
-    res = pl.pmap(eval_case, cases, jobs=8, chunksize=2)
+    res = pmap_fresh(eval_case, cases, jobs=8)
     state = {}
     tie = []
     for i, (case, (impl, top, top_outer), ri, nc) in enumerate(zip(cases, res, ref_inner, nch)):
@@ -651,7 +680,8 @@ def run(ctx):
         elif verdict == "violation":
             report(ctx, case, verdict, details, impl, top, ri, state)
         # model tie on small instances: Sem.prob_gen enumerates every ground AD instance
-        small = nc[0] == "nch" and nc[1][1] <= ctx.n(9, 10)
+        ninst = max([len(prog.constants() or ["a"]) ** len(goal_vars(g)) for g in goals] or [1])
+        small = nc[0] == "nch" and ninst * 2 ** nc[1][1] <= 1024 and len(tie) < ctx.n(400, 1500)
         outer_bad = kind == "sq2_outer" and ref_outer[i][0] == "err"
         if small and verdict in ("agree", "violation") and not outer_bad and (impl[0] == "ok" or impl[1] == "InconsistentEvidence"):
             for gi in range(len(goals)):
